@@ -21,8 +21,8 @@ META = dict(
               "kinds, inside and outside a generator; consumers that exhaust, break and close(). (parsers) tokenised "
               "fixture files of 20 formats (numbers symbolic) and the generated files of the C02 writers, with a "
               "nondeterministic end of file at every line boundary and with one numeric field replaced by a malformed "
-              "text (non-numeric, empty, absurdly large count); a cut inside a line (prefix of 1 character, half, all but the "
-              "last character) and one deleted / duplicated / swapped line, both at 10 line positions spread over the "
+              "text (non-numeric, empty, absurdly large count); a cut inside a line (prefix of 1 character, 25 / 50 / 60 / 70 / 80 / 90 % and all but "
+              "the last character; 3 positions for fixtures longer than 30 lines) and one deleted / duplicated / swapped line, both at 10 line positions spread over the "
               "file; explicit and name-derived format selection",
         thorough="more fixtures per format, corruption of every k-th token"),
     outside=["binary garbage, character substitutions outside numeric fields, mutations of several lines at once; a number cut "
@@ -43,6 +43,14 @@ def _consistent(d):
             continue
         if len(v) != n or (ncol is not None and (v.ndim != 2 or v.shape[1] != ncol)):
             return False, name
+    # per-atom arrays kept in dictionaries (documented as one entry per atom)
+    for dname, keys in (("atcharges", None), ("atffparams", None), ("extra", ("occupancies", "bfactors", "chainids", "velocities", "forces"))):
+        dct = getattr(d, dname) or {}
+        for k, v in dct.items():
+            if keys is not None and k not in keys:
+                continue
+            if isinstance(v, np.ndarray) and n is not None and (v.ndim == 0 or len(v) != n):
+                return False, f"{dname}[{k!r}] has {v.shape} for {n} atoms"
     if d.athessian is not None and n is not None and d.athessian.shape != (3 * n, 3 * n):
         return False, "athessian"
     if d.mo is not None and d.obasis is not None and d.mo.coeffs is not None:
@@ -199,8 +207,10 @@ def h_parser(ctx, fmt="xyz", fn="water_element.xyz", many=False, fault="truncate
                 ls = t.rfind("\n", 0, m.start()) + 1
                 le = t.find("\n", m.end())
                 return not rx.search(t[ls:le if le >= 0 else len(t)])
-        t2, table = corpus.tokenise(text, max_tokens=3000, use_model=False, skip=skipf)
-        if fault == "truncate":
+        t2, table = corpus.tokenise(text, max_tokens=3000, use_model=False, skip=skipf, ctx=ctx)
+        if fault == "none":
+            pass
+        elif fault == "truncate":
             cut = ctx.choice(list(range(0, len(lines) + 1)), label="cut-after-line")
             t2 = "".join(t2.splitlines(keepends=True)[:cut])
         elif fault in ("truncate-inline", "lines"):
@@ -215,7 +225,8 @@ def h_parser(ctx, fmt="xyz", fn="water_element.xyz", many=False, fault="truncate
                 # a writer that crashed in the middle of a line: the last line is a proper prefix (one character, half
                 # of it, all but the last character and the newline)
                 ln = tl[k].rstrip("\n")
-                keep = ctx.choice(sorted({1, max(1, len(ln) // 2), max(1, len(ln) - 1)}), label="prefix-length")
+                fr = (0.5, 0.99) if (ctx.tier == "quick" and n > 30) else (0.25, 0.5, 0.6, 0.7, 0.8, 0.9, 0.99)
+                keep = ctx.choice(sorted({1} | {max(1, min(len(ln) - 1, int(len(ln) * f))) for f in fr}), label="prefix-length")
                 t2 = "".join(tl[:k]) + ln[:keep]
             else:
                 how = ctx.choice(["delete", "duplicate", "swap-with-next"], label="mutation")
@@ -289,6 +300,8 @@ def h_parser(ctx, fmt="xyz", fn="water_element.xyz", many=False, fault="truncate
         opened = [e for e in ctx.events if e[0] == "open" and e[1] == path]
         closed = [e for e in ctx.events if e[0] == "close" and e[1] == path]
         ctx.oblige("file-closed-afterwards", len(opened) == len(closed), cls=cls)
+    # outcome signature (used by the call-history check C16): kind of outcome, message without the scratch path, objects
+    return dict(out=out, msg=str(err).replace(os.path.dirname(path), "<dir>") if err is not None else None, objs=objs)
 
 
 def jobs(tier):
